@@ -22,8 +22,8 @@ Emit(c) == PrintT("CASE " \o ToJson(c))
 
 CKinds == <<"two", "upper", "lower">>
 Conf(ki, li) == [kind |-> CKinds[ki], level |-> [dec |-> LevelDec(li)]]
-LevQuick == {1, 4, 8, 12, 14, 17}
-Levs == IF Thorough THEN 1..17 ELSE LevQuick
+LevQuick == {1, 4, 8, 12, 14, 19}
+Levs == IF Thorough THEN 1..NLEV ELSE LevQuick
 V(n, p) == [n |-> n, p |-> p]
 
 \* ---- random run-length sample of size n (values N * 2^P, |N| < 2^24) ---------------------------
@@ -69,7 +69,7 @@ C01Part(d) ==
        IN \A ty \in {"f64", "f32"} : \A li \in Levs : \A ki \in 1..3 : EmitStyles("arith", ty, ki, li, dd)
   /\ \A s \in DOMAIN Shapes : \A ty \in {"f64", "f32"} : \A li \in Levs : \A ki \in 1..3 :
        EmitStyles("arith", ty, ki, li, Shapes[s])
-  /\ \A b \in DOMAIN BigNs : \A ty \in {"f64", "f32"} : \A li \in {2, 7, 8, 12, 17} : \A ki \in 1..3 :
+  /\ \A b \in DOMAIN BigNs : \A ty \in {"f64", "f32"} : \A li \in {2, 7, 8, 12, 19} : \A ki \in 1..3 :
        LET n == BigNs[b]
            data == [rle |-> << <<V(-3, -1), n \div 3>>, <<V(5, 0), n \div 3>>, <<V(64, 0), n - 2 * (n \div 3)>> >>,
                     order |-> "interleave"]
@@ -81,11 +81,11 @@ Probe(n) == IF n % 2 = 0 THEN [rle |-> << <<V(-1, 0), n \div 2>>, <<V(1, 0), n \
             ELSE [rle |-> << <<V(-1, 0), n \div 2>>, <<V(1, 0), n \div 2>>, <<V(0, 0), 1>> >>, order |-> "interleave"]
 NuSel == IF Thorough THEN 1..NNU ELSE (1..120) \cup {i \in 121..NNU : i % 10 = 0} \cup {NNU - 2, NNU - 1, NNU}
 C06Part(d) ==
-  /\ \A ni \in NuSel : \A li \in 1..17 : \A ki \in 1..3 :
+  /\ \A ni \in NuSel : \A li \in 1..NLEV : \A ki \in 1..3 :
        Emit(MeanCase("arith", "f64", "ci", ki, li, Probe(NuOf(ni) + 1), TRUE, "base"))
-  /\ \A n \in {100001, 100002, 150000, 250000, 1000001} : \A li \in 1..17 : \A ki \in 1..3 :
+  /\ \A n \in {100001, 100002, 150000, 250000, 1000001} : \A li \in 1..NLEV : \A ki \in 1..3 :
        Emit(MeanCase("arith", "f64", "extend", ki, li, Probe(n), TRUE, "base"))
-  /\ \A ni \in {1, 2, 3, 9, 30, 99, 299} : \A li \in 1..17 : \A ki \in 1..3 :
+  /\ \A ni \in {1, 2, 3, 9, 30, 99, 299} : \A li \in 1..NLEV : \A ki \in 1..3 :
        Emit(MeanCase("arith", "f32", "ci", ki, li, Probe(NuOf(ni) + 1), TRUE, "base"))
 
 \* ---- C04 ----------------------------------------------------------------------------------------
@@ -127,11 +127,20 @@ C04Part(d) ==
                      @@ [fam |-> fam])
              /\ (si = 1) => Emit(TwoCase("unpaired", ty, "ci", FlipK[ki], li, db, da, FALSE, "exchange") @@ [fam |-> fam])
 
+\* unpaired samples at very small / very large magnitudes (no absolute thresholds in the formula)
+ScaledUnpaired(d) ==
+  \A i \in 1..3 : \A ty \in {"f64", "f32"} : \A sc \in (IF ty = "f64" THEN {-60, -30, 40} ELSE {-16, 12}) :
+     LET na == Pick(400 + i, 31, 3, 40)  nb == Pick(400 + i, 32, 3, 40)
+         da == RandSample(7000 + i, na, 0, 0) @@ [scale |-> [p |-> sc]]
+         db == RandSample(7100 + i, nb, 40, 0) @@ [scale |-> [p |-> sc]] IN
+     \A li \in LevQuick : \A ki \in 1..3 :
+        Emit(TwoCase("unpaired", ty, "ci", ki, li, da, db, TRUE, "base") @@ [fam |-> 2])
+
 \* designed sample pairs with NON-INTEGER effective degrees of freedom (spec/tables/tqx.ndjson):
 \* consecutive pairs share the integer part of the dof, and the cases of one confidence are emitted
 \* back to back (the harness runs this part on one thread): a stale or truncated dof shows
 DesignedPart(d) ==
-  \A li \in 1..17 : \A ki \in 1..3 : \A ty \in {"f64"} : \A pi \in 1..NDesigned : \A sw \in {1, 2} :
+  \A li \in 1..NLEV : \A ki \in 1..3 : \A ty \in {"f64"} : \A pi \in 1..NDesigned : \A sw \in {1, 2} :
      LET da == Seq1([j \in DOMAIN DesignedA(pi) |-> V(DesignedA(pi)[j], 0)])
          db == Seq1([j \in DOMAIN DesignedB(pi) |-> V(DesignedB(pi)[j], 0)]) IN
      Emit(TwoCase("unpaired", ty, "ci", IF sw = 1 THEN ki ELSE FlipK[ki], li,
@@ -167,7 +176,7 @@ C05Part(d) ==
 Next == /\ ~done
         /\ done' = TRUE
         /\ CASE Part = "c01" -> C01Part(done) [] Part = "c06" -> C06Part(done)
-             [] Part = "c04" -> C04Part(done) [] Part = "c05" -> C05Part(done)
+             [] Part = "c04" -> (C04Part(done) /\ ScaledUnpaired(done)) [] Part = "c05" -> C05Part(done)
              [] Part = "designed" -> DesignedPart(done)
 Spec == Init /\ [][Next]_done
 =============================================================================
